@@ -35,6 +35,9 @@ func CheckC02(sc Scenario, rec *Rec) error {
 			if sc.Fit.Scale >= 1e300 {
 				rec.Class("fitness values whose sum overflows")
 			}
+			if sc.Fit.Scale <= 1e-300 {
+				rec.Class("fitness values at the bottom of the float64 range")
+			}
 			old := 0
 			for _, sp := range pop.Species {
 				if sp.Age > 5 {
